@@ -190,3 +190,16 @@ func (g *Gen) flush() error {
 	}
 	return os.WriteFile(filepath.Join(g.Out, fmt.Sprintf("cases_%s.json", strings.ReplaceAll(g.Prop, ".", "_"))), js, 0o644)
 }
+
+// Perm returns a random permutation of 0..n-1.
+func (r *Rng) Perm(n int) []int {
+	p := make([]int, n)
+	for i := range p {
+		p[i] = i
+	}
+	for i := n - 1; i > 0; i-- {
+		j := r.Intn(i + 1)
+		p[i], p[j] = p[j], p[i]
+	}
+	return p
+}
